@@ -11,7 +11,7 @@
    Reverse scans are stated from an arbitrary start cursor: they return what lies strictly below it (with the
    empty cursor: nothing — the behaviour the repository's own tests fix; DESIGN.md S1). *)
 From ZV Require Import Common.Bytes Scan.Consts Scan.Model Scan.ProofsOrder Scan.ProofsIter Scan.ProofsRange Scan.Proofs
-     Scan.ProofsMerge Scan.ProofsCluster Scan.ProofsB64 Scan.ProofsCursor Scan.ProofsCodec.
+     Scan.ProofsMerge Scan.ProofsCluster Scan.ProofsB64 Scan.ProofsCursor Scan.ProofsCodec Scan.ProofsFull.
 From ZV Require Codec.Spec Codec.Keys.
 From Coq Require Import Sorting.Sorted ZArith Permutation.
 Open Scope N_scope.
@@ -342,6 +342,31 @@ Theorem C13_encoders_are_C12s : forall dt t k s raw ty,
 Proof. intros. repeat split. apply coll_key_same. Qed.
 Print Assumptions C13_encoders_are_C12s.
 
+(* (13) FULLSCAN (rockredis/fullscan.go as fixed by e17393d / 5624e60; local-deletion policy): iterating
+   FULLSCAN table: type by the cursor base64(key):base64(element) returns every element of every key of that
+   type and table whose key matches, exactly once, in engine order, with COUNT elements per call:
+   |R|/COUNT + 1 calls. [bodies] = what follows the table prefix in the stored element keys; the hypothesis
+   says that they are well-formed keys of the type with a non-empty key name and byte-valued parts (what
+   the write path stores). *)
+Theorem C13_fullscan_exact :
+  forall (compile : bytes -> option (bytes -> bool)) (db : list bytes) (d : dtype) (table pat : bytes)
+         (mk : bytes -> bool) (count : Z),
+    sorted_db db -> ~ In key_sep table -> matcher compile pat = Some mk -> (1 <= count)%Z ->
+    (forall s, In s (bodies db d table) -> exists key cur,
+        decode_fs_item (fs_store_type d) (data_table_prefix (fs_store_type d) table ++ s) = Ok (key, cur) /\
+        body_of (fs_store_type d) (cursor_key (fs_store_type d) key) cur = s /\
+        cursor_key (fs_store_type d) key <> [] /\ bytes_ok (cursor_key (fs_store_type d) key) = true /\
+        bytes_ok cur = true /\ (fs_store_type d =? list_type = true -> length cur = 8%nat)) ->
+    forall fuel,
+      let R := fs_result db d table mk in
+      (length R / eff_count count < fuel)%nat ->
+      exists pages,
+        iterate_fullscan compile fuel db d table pat count = (pages, Done) /\
+        concat (map fst pages) = R /\
+        length pages = (length R / eff_count count + 1)%nat.
+Proof. exact fullscan_exact. Qed.
+Print Assumptions C13_fullscan_exact.
+
 (* ---------- non-vacuity: a concrete store ---------- *)
 (* hash t:h = {a, ab, b}, hash t:h2 = {a}, set t:h = {a}; KV keys t:a t:ab t:b t2:a u:a *)
 Definition ex_db : list bytes :=
@@ -412,4 +437,10 @@ Example C13_ex_universe :
   is_sorted (store_of ex_universe) = true /\
   iterate_coll mini_compile 5 (store_of ex_universe) hash_type [116] [104] true false [] [] 1 =
     ([([[97]], [97]); ([[98]], [98]); ([], [])], Done).
+Proof. vm_compute. split; reflexivity. Qed.
+
+(* FULLSCAN t: HASH COUNT 2 over ex_db: (h,a) (h,ab) | (h,b) (h2,a) | end; the cursor text is base64 *)
+Example C13_ex_fullscan :
+  let r := iterate_fullscan mini_compile 6 ex_db HASH [116] [] 2 in
+  map fst (fst r) = [[([104], [97]); ([104], [97;98])]; [([104], [98]); ([104;50], [97])]; []] /\ snd r = Done.
 Proof. vm_compute. split; reflexivity. Qed.
